@@ -10,7 +10,8 @@ from urllib.parse import unquote_to_bytes, quote_from_bytes
 PKG = "vdr/didweb"
 HARNESS = ["vdr/didweb/zz_verif_c18_test.go"]
 HARNESSES = [("vdr/didweb", ["vdr/didweb/zz_verif_c18_test.go"], "c18"),
-             ("vdr", ["vdr/zz_verif_c18_test.go"], "c18vdr")]
+             ("vdr", ["vdr/zz_verif_c18_test.go"], "c18vdr"),
+             ("http/client", ["http/client/zz_verif_c18hc_test.go"], "c18hc")]
 
 SET14 = b"~!$&'()*+,;=:@"
 
@@ -75,12 +76,61 @@ def parse_res(line):
     return reqs, m.group(2)
 
 
+def hc_oracle(op, line, opl, violation, outcomes, feats, distinct):
+    """stateful response cache (deepening round): invariants proved of the model (rcache_invariant, rcache_hit_sound),
+    evaluated on the REAL cache's dumped state after every step"""
+    if not line.startswith("hc "):
+        return
+    outs = line[3:].split(";")
+    ents, nid, linked = {}, 0, False
+    distinct.add(("hc", json.dumps(op["steps"]), op["max"]))
+    feats[f"hc-steps={min(len(op['steps']), 12)}"] += 1
+    for st, o in zip(op["steps"], outs):
+        head, _, dump = o.partition(" ")
+        outcomes["hc " + re.sub(r"\d+", "", head)] += 1
+        if not dump:
+            break      # hang / bad step: the case ends here
+        k, now = st["k"], st.get("now", 0)
+        rq = st.get("u", {}).get("query", "")
+        if k in ("ins", "lnk"):
+            ents[nid] = (st.get("us"), st.get("m"), rq, st.get("sz", 0), st.get("exp", 0), k)
+            nid += 1
+            linked = linked or k == "lnk"
+        elif k == "rt" and head.startswith("rt:net") and st.get("m") == "GET" and (st.get("ans") or {}).get("ca") is not None:
+            ents[nid] = (st.get("us"), "GET", rq, st["ans"]["sz"], st["ans"]["ca"], "rt")
+            nid += 1
+        size_s, lst_s, map_s = dump.split("/")
+        size = int(size_s)
+        lst = [(int(x.split("@")[0]), int(x.split("@")[1])) for x in lst_s.split(".") if x]
+        mp = [int(x.split(":")[0]) for x in map_s.split(".") if x]
+        what = f"cache of {op['max']} bytes after step {k} {st.get('us', '')}: {o}"
+        mh = re.match(r"(get|rt):hit(-?\d+)", head)
+        if mh:
+            e = ents.get(int(mh.group(2)))
+            if e is None or (e[0], e[1], e[2]) != (st.get("us"), st.get("m"), rq):
+                violation("cache-hit-for-other-request", f"the cache answered {st.get('m')} {st.get('us')} with the entry stored for {e and e[:3]}; " + what, opl)
+            if k == "rt" and st.get("m") != "GET":
+                violation("cache-served-non-get", what, opl)
+        if head == "rt:net:true" and (st.get("m") != "GET" or (st.get("ans") or {}).get("ca") is None):
+            violation("cache-stored-uncacheable-response", what, opl)
+        if any(i not in ents for i in mp) or size != sum(ents[i][3] for i in mp if i in ents):
+            violation("cache-size-accounting", "currentSizeBytes differs from the bytes held in entriesByURL; " + what, opl)
+        if mp and size >= op["max"] and not linked:
+            violation("cache-over-capacity", "the cache holds as many bytes as its limit or more; " + what, opl)
+        if any(i not in mp for i, _ in lst):
+            violation("cache-listed-entry-not-indexed", what, opl)
+        if (k == "get" or (k == "rt" and st.get("m") == "GET")) and any(ents.get(i, (0, 0, 0, 0, 0))[4] < now for i, _ in lst):
+            violation("cache-expired-entry-kept-after-prune", "an entry of the expiry list that has expired survived the prune of a lookup; " + what, opl)
+        if any(ents.get(i, (0,) * 6)[5] == "rt" and mins > 60 for i, mins in lst):
+            violation("cache-ttl-above-cap", "a response is kept longer than maxCacheTime; " + what, opl)
+
+
 def run(ctx):
     ctx.facts()
     thms = ctx.build_and_audit(["NutsProofs.Props.C18"])
     required = ["did_url_roundtrip", "fetch_origin_bound", "redirects_stay_on_origin", "strict_client_https_only",
                 "redirect_witness", "id_bound_web", "id_bound", "jwk_key_pure", "local_first_no_network",
-                "deactivated_needs_flag", "local_store_fault_no_network", "fact_local_resolver_errors", "fact_local_time_bound", "fact_cache_index", "cache_key_injective", "cache_no_foreign_entry", "fact_sets", "fact_content_types", "fact_redirect_policy", "fact_router",
+                "deactivated_needs_flag", "local_store_fault_no_network", "fact_local_resolver_errors", "fact_local_time_bound", "fact_cache_index", "fact_local_lookup_query", "local_lookup_exact", "local_lookup_ignores_other_dids", "local_sql_refines", "local_resolution_independent_of_other_dids", "cache_key_injective", "cache_no_foreign_entry", "fact_sets", "fact_content_types", "fact_redirect_policy", "fact_router",
                 "fact_deactivation", "fact_resolve_checks_document_id", "fact_strict_do"]
     for r in required:
         if not any(t.endswith("Props." + r) for t in thms):
@@ -116,7 +166,8 @@ def run(ctx):
             env["VERIF_REPLAY"] = os.path.abspath(ctx.replay)
             first = open(ctx.replay).readline()
             is_vdr = '"op":"node"' in first or '"op": "node"' in first
-            if is_vdr != (name == "c18vdr"):
+            is_hc = '"op":"hc"' in first or '"op": "hc"' in first
+            if name != ("c18vdr" if is_vdr else "c18hc" if is_hc else "c18"):
                 continue
         else:
             env["VERIF_CORPUS"] = os.path.join(corpus, name)
@@ -234,6 +285,8 @@ def run(ctx):
                 for o in outs:
                     if o.startswith("ok:") and bytes.fromhex(o[3:]) != b"did:web:" + idb:
                         violation("document-id-differs", f"returned document id {bytes.fromhex(o[3:])!r} for did:web:{idb!r}", opl)
+        elif kind == "hc":
+            hc_oracle(op, line, opl, violation, outcomes, feats, distinct)
         elif kind == "resolve":
             m = re.fullmatch(r"resolve reqs=(\d+) out=(.*)", line)
             if not m:
@@ -257,6 +310,8 @@ def run(ctx):
                 violation("network-after-storage-fault", f"local store failed while resolving {didb!r} (managed: {op.get('local')}), yet {n} outbound request(s) were made / result {out[:40]}", node_line + "\n" + opl)
             elif op.get("local") in ("active", "deactivated") and n:
                 violation("network-for-local-did", f"{n} outbound request(s) while resolving locally managed {didb!r}", node_line + "\n" + opl)
+            if meth == b"web" and op.get("local") == "absent" and not op.get("fault") and out.startswith("ok") and n == 0:
+                violation("unmanaged-did-answered-locally", f"{didb!r} is not managed by this node (case variants in its store: {[bytes.fromhex(x['did']).decode('latin1') for x in op.get('sib') or []]}) but was answered without a request to its origin: {out[:80]}", node_line + "\n" + opl)
             if op.get("local") == "deactivated" and not op.get("allow") and out.startswith("ok"):
                 violation("deactivated-resolved", f"deactivated {didb!r} resolved without AllowDeactivated", node_line + "\n" + opl)
             if out.startswith("ok:"):
